@@ -376,3 +376,48 @@ def run(ctx):
         "the wrapper generator of the tree under test writes its C file to /tmp/nanovirt_<pid>.c (hard-coded in wrapper_gen.c)",
         "stdout of the three runners is compared byte for byte, stderr (whose wording differs by design) is not",
         "corpus programs declare main's result in a header comment; NvmRun.tla derives the exit status from it"]
+
+
+def replay(ctx, path):
+    """./check C10 --replay <artifact>: re-run one saved case against the current tree (property only, no suppression)"""
+    art = json.load(open(path))
+    probe = ctx.probe("nvm_probe")
+    tree = os.path.dirname(os.path.dirname(probe))
+    d = ctx.dir("replay")
+    kind = art.get("kind")
+    if kind == "format":
+        c = art["case"]
+        m = c["m"]
+        inp = os.path.join(d, "module.ndjson")
+        with open(inp, "w") as f:
+            f.write(json.dumps(dict(id=0, calls=c["calls"], code=m["code"], functions=m["functions"], imports=m["imports"],
+                                    debug=m["debug"], flags=m["flags"], entry=m["entry"])) + "\n")
+        res = json.loads(sh([probe, "build", inp], env=ctx.env()).stdout.splitlines()[0])
+        bad = judge_stages(res)
+        print(json.dumps(dict(observed=res, violated=bad), indent=1))
+        if bad:
+            ctx.violation("format: " + bad[0], path)
+    elif kind in ("program", "file"):
+        prog = dict(name="replay", src=art["source"])
+        res = run_one(ctx, tree, prog)
+        if "skip" in res:
+            raise InfraError(res["skip"])
+        if kind == "file":
+            r = json.loads(sh([probe, "files", res["nvm"]], env=ctx.env()).stdout.splitlines()[0])
+            bad = judge_stages(r) if r.get("file_load_ok") else ["file refused"]
+            if not bad and r["bytes"] != r["file_bytes"]:
+                bad = ["serialize(deserialize(file)) differs from the file"]
+            print(json.dumps(dict(violated=bad), indent=1))
+            if bad:
+                ctx.violation("format: " + bad[0], path)
+        else:
+            ref = res["run"]
+            for runner in RUNNERS:
+                rc, out, err = res[runner]
+                print("%-8s exit=%s stdout=%r" % (runner, status_of(rc), out[:300]))
+                if (rc, out) != (ref[0], ref[1]):
+                    ctx.violation("%s differs from --run: exit %s vs %s, stdout %r vs %r" % (
+                        runner, status_of(rc), status_of(ref[0]), out[:100], ref[1][:100]), path)
+    else:
+        raise InfraError("not a C10 replay artifact: %s" % path)
+    return 1 if ctx.violations else 0
